@@ -373,7 +373,7 @@ func rulePanicAssert(p *Prog, r *Report) {
 			}
 		}
 	}
-	r.Floor("R-PANIC-ASSERT", 8)
+	r.Floor("R-PANIC-ASSERT", 6)
 }
 
 func init() {
